@@ -291,6 +291,12 @@ static void svp_case(uint64_t N, int fam, int native, int tmp_a, uint64_t res_si
   zvec_snap(&sa, &A);
   snap_take(&sb, b, N * 8);
   svp_prepare(mod, ppol, b);
+  if (snap_cmp_free(&sb) >= 0) viol("snapshot", "svp_prepare modified its input");
+  // the prepared polynomial is a value of its own: the integer polynomial is overwritten before the product is made
+  int64_t* const b0 = malloc(N * 8 + 8);
+  memcpy(b0, b, N * 8);
+  fill_pattern((uint8_t*)b, N * 8, 3, case_index() * 7 + 3);
+  cnt("prepare_arguments_overwritten_before_use", 1);
   snap_t sp;
   snap_take(&sp, ppol, bytes_of_svp_ppol(mod));
   svp_apply_dft(mod, dft, dsize, ppol, A.p, a_size, A.sl);
@@ -306,7 +312,7 @@ static void svp_case(uint64_t N, int fam, int native, int tmp_a, uint64_t res_si
   cntf("idft_variant:%s%s", 1, idn[tmp_a], short_dft ? ",short-dft" : (long_dft ? ",long-dft" : ""));
   for (uint64_t l = 0; l < res_size; l++) {
     if (l < a_size)
-      check_product(tmp_a ? "svp+idft_tmp_a" : "svp+idft", N, zvec_limb(&A, l), b, out + l * N, exact);
+      check_product(tmp_a ? "svp+idft_tmp_a" : "svp+idft", N, zvec_limb(&A, l), b0, out + l * N, exact);
     else {
       for (uint64_t i = 0; i < N; i++)
         if (out[l * N + i] != 0) {
@@ -318,7 +324,7 @@ static void svp_case(uint64_t N, int fam, int native, int tmp_a, uint64_t res_si
   }
   long d;
   if ((d = zvec_snap_cmp_free(&sa, &A)) >= 0) viol("snapshot", "svp path modified input a at byte %ld", d);
-  if (snap_cmp_free(&sb) >= 0) viol("snapshot", "svp_prepare modified its input");
+  free(b0);
   char msg[200];
   long wh;
   if (zvec_check(&A, msg, sizeof msg)) viol("canary", "a: %s", msg);
